@@ -215,7 +215,7 @@ func followFullDropEmit(k int) scenario {
 // k requests of one session share ONE stop channel (the documented bidirectional use).
 // The stoppers are held at the schedule point stream.stopperClose (right before
 // close(stopServiceChan)); with the mutex around test-and-close only one of them can
-// be there. Needs proposed_fixes/C15-hook-stopper.diff, discarded without it.
+// be there. The point is part of /repo (verif hooks commit).
 func stopShared(k int, kind string) scenario {
 	b := newB(fmt.Sprintf("stop-shared-%d", k), 1, 1).add(op{S: 0, K: "open", Share: true})
 	for i := 1; i < k; i++ {
@@ -237,8 +237,8 @@ func stopSharedStress(kind string) scenario {
 }
 
 // F19 with one follow-up, forced at the schedule point ws.readerForward (reader
-// goroutine, just before its send on clientInputs). Needs proposed_fixes/C15-hooks.diff;
-// without it the point is never reached and the scenario is discarded.
+// goroutine, just before its send on clientInputs). The point is part of /repo (verif hooks commit);
+// a goroutine that does not reach it is recorded as an observation (OPointMissed).
 func hookReaderForward(p int) scenario {
 	return newB("hook-follow|end", 1, 1).open(0, 0).lock(0, 0, 1, p).
 		add(op{S: 0, K: "gate", P: "ws.readerForward"}).
